@@ -57,6 +57,12 @@ func CheckC01(sc *Scenario, res *Result) *Violation {
 	}
 	shutdownReturned := false
 	faulty := sc.HasFault()
+	// afterFailedPrep: Start returned an error and not every module was prepped. Management passes after that are
+	// outside what the module system is used for (run.Run exits); the unchanged code returns nil from such a pass
+	// while a wanted module stays unprepared, and a prep that was launched before Start gave up may begin and end
+	// after a pass has begun to start modules. So (d) and the "prep ends before any start" half of (a) are not judged from
+	// then on; everything else is - above all (e).
+	afterFailedPrep := false
 
 	for _, e := range evs {
 		st := ms[e.Mod]
@@ -66,7 +72,7 @@ func CheckC01(sc *Scenario, res *Result) *Violation {
 			if st.prepBegins > 1 {
 				return violf("C01a-prep-once", "prep of %s began %d times", e.Mod, st.prepBegins)
 			}
-			if firstStartBegin >= 0 {
+			if firstStartBegin >= 0 && !afterFailedPrep {
 				return violf("C01a-prep-before-start", "prep of %s began (seq %d) after a start routine had begun (seq %d)", e.Mod, e.Seq, firstStartBegin)
 			}
 			for _, d := range sc.Mod(e.Mod).Deps {
@@ -79,7 +85,7 @@ func CheckC01(sc *Scenario, res *Result) *Violation {
 				st.prepEndOK = true
 				st.prepEndSeq = e.Seq
 			}
-			if firstStartBegin >= 0 {
+			if firstStartBegin >= 0 && !afterFailedPrep {
 				return violf("C01a-prep-before-start", "prep of %s ended (seq %d) after a start routine had begun (seq %d)", e.Mod, e.Seq, firstStartBegin)
 			}
 		case "start-begin":
@@ -126,9 +132,16 @@ func CheckC01(sc *Scenario, res *Result) *Violation {
 				// the wanted modules were not brought online / stopped (e.g. a bogus "dependency loop").
 				return violf("C01f-spurious-error", "%s returned %q although no lifecycle routine fails and the graph is acyclic; status=%v", e.Info, e.Err, e.Status)
 			}
+			if e.Info == "start" && !e.ErrNil {
+				for _, m := range sc.Modules {
+					if !ms[m.Name].prepEndOK {
+						afterFailedPrep = true
+					}
+				}
+			}
 			switch e.Info {
 			case "start", "manage":
-				if e.ErrNil && !shutdownReturned {
+				if e.ErrNil && !shutdownReturned && !afterFailedPrep {
 					wanted := map[string]bool{}
 					if sc.Mgmt {
 						wanted = sc.TransitiveDeps(sortedKeys(enabled))
